@@ -496,3 +496,24 @@ Theorem C15_py_item_stmt (uc : unicode) (cfg : py_config) :
     docs_of (c15_file_pieces C15py parts) = map (c15_site_text C15py) (c15_py_item_sites it) /\
     c15_contained C15py LCode (mark (c15_file_pieces C15py parts)) = forallb (c15_site_ok C15py) (c15_py_item_sites it).
 Proof. intros Huc Hm. exact (C15_py_item uc Huc cfg Hm). Qed.
+
+(* the other item kinds: a unit enum (wire name with a dash), a generic alias, a constant and the generic struct are in
+   the class as well, every one is written, and the printed text reproduces every doc string and is contained *)
+Definition c15_pynv_unit : ritem :=
+  ItEnum (EUnit {| eid := c15_ktnv_id "Color" "Color"; egenerics := []; ecomments := [c15_doc_nasty_line];
+                   evariants := [VUnit (c15_ktnv_vsh "Red" "red" [c15_doc_nasty_line]);
+                                 VUnit (c15_ktnv_vsh "DarkBlue" "dark-blue" [lit "second"])];
+                   edecs := []; erecursive := false; eredacted := false |}).
+Definition c15_pynv_alias : ritem :=
+  ItAlias {| aid := c15_ktnv_id "Al" "Al"; agenerics := [lit "T"]; atype := RVec (RSimple (lit "T"));
+             acomments := [c15_doc_nasty_line]; adecs := []; aredacted := false |}.
+Definition c15_pynv_const : ritem := ItConst {| cid := c15_ktnv_id "maxLen" "maxLen"; ctype := RPrim PU32; cvalue := Zneg 12 |}.
+Definition c15_pynv_good (it : ritem) : bool :=
+  match py_write_item uc_exec c15_py_cfg it py_empty_state with
+  | Ok (text, _) => negb (Nat.eqb (List.length text) 0) && good_C15 C15py (map (c15_site_text C15py) (c15_py_item_sites it)) text
+  | _ => false
+  end.
+Example C15_py_item_kinds_nonvacuous :
+  forallb c15_py_item_ok [c15_pynv_unit; c15_pynv_alias; c15_pynv_const; c15_ktnv_struct] = true /\
+  forallb c15_pynv_good [c15_pynv_unit; c15_pynv_alias; c15_pynv_const; c15_ktnv_struct] = true.
+Proof. split; vm_compute; reflexivity. Qed.
